@@ -47,6 +47,13 @@ def cases(ctx):
                     idx += 1
     for i in range(ctx.n(500, 40000)):
         m = models.gen_model(rng, n_ops=rng.randint(1, 10), sinks=False)
+        if i % 5 == 0:
+            # a legal POSIX file name with a backslash in it (what a Windows-style relative path looks like here)
+            newname = rng.choice(["da\\ta.csv", "in\\put\\table.csv", "t\\x.csv"])
+            m["table"]["file"] = newname
+            for c in m["commands"]:
+                if c["cmd"] == "EEMSRead":
+                    c["args"]["InFileName"] = newname
         yield {"kind": "model", "model": m, "mixed": rng.random() < 0.4, "style": rng.choice(["canon", "wild", "wild"]), "rseed": rng.randrange(10 ** 9)}
 
 
